@@ -28,6 +28,9 @@ pub enum FollowUp {
     CloseOkAndEofSameRead,
     /// a few deliveries, then CloseOk
     DeliveriesThenCloseOk,
+    /// heartbeats negotiated at 1 s; the server (sending its own heartbeats) takes this long to
+    /// answer CloseOk - longer than a heartbeat interval
+    SlowCloseOk { delay_ms: u16 },
 }
 
 #[derive(Clone, Debug, Serialize, Deserialize, PartialEq)]
@@ -54,6 +57,8 @@ pub struct Broker {
     follow: Option<FollowUp>,
     server_eof_after_close_ok: bool,
     pub consumer_tags: Vec<(u16, String)>,
+    close_ok_due: Option<std::time::Instant>,
+    last_hb: std::time::Instant,
 }
 
 impl Responder for Broker {
@@ -64,6 +69,9 @@ impl Responder for Broker {
                     let ok = encode(&AMQPFrame::Method(0, AMQPClass::Connection(Conn::CloseOk(connection::CloseOk {}))));
                     match self.follow.clone().unwrap_or(FollowUp::CloseOk) {
                         FollowUp::CloseOk => io.wire.push(ok),
+                        FollowUp::SlowCloseOk { delay_ms } => {
+                            self.close_ok_due = Some(std::time::Instant::now() + Duration::from_millis(1100 + delay_ms as u64 % 1500));
+                        }
                         FollowUp::CloseOkThenEof => {
                             io.wire.push_items(vec![InItem::Data(ok), InItem::Block, InItem::Eof]);
                         }
@@ -110,7 +118,17 @@ impl Responder for Broker {
             }
         }
     }
-    fn on_tick(&mut self, _io: &mut BrokerIo) {}
+    fn on_tick(&mut self, io: &mut BrokerIo) {
+        if let Some(due) = self.close_ok_due {
+            if std::time::Instant::now() >= due {
+                self.close_ok_due = None;
+                io.wire.push(encode(&AMQPFrame::Method(0, AMQPClass::Connection(Conn::CloseOk(connection::CloseOk {})))));
+            } else if self.last_hb.elapsed() > Duration::from_millis(400) {
+                self.last_hb = std::time::Instant::now();
+                io.wire.push(encode(&AMQPFrame::Heartbeat(0)));
+            }
+        }
+    }
 }
 
 struct ChanReport {
@@ -137,8 +155,23 @@ pub fn exec(c: &Case) -> Outcome {
         follow,
         server_eof_after_close_ok: server.as_ref().map_or(false, |s| s.2),
         consumer_tags: Vec::new(),
+        close_ok_due: None,
+        last_hb: std::time::Instant::now(),
     };
-    let mut sess = open_session(&ClientCfg::default(), ServerCfg::default(), vec![], broker);
+    let slow = matches!(c.direction, Direction::Client(FollowUp::SlowCloseOk { .. }));
+    let hb = if slow { 1 } else { 0 };
+    let mut sess = open_session(
+        &ClientCfg {
+            heartbeat: hb,
+            ..Default::default()
+        },
+        ServerCfg {
+            heartbeat: hb,
+            ..Default::default()
+        },
+        vec![],
+        broker,
+    );
     let mut conn = match sess.conn.take() {
         Some(c) => c,
         None => {
@@ -279,9 +312,17 @@ pub fn exec(c: &Case) -> Outcome {
     let stalled = c.stalled;
     let wire2 = wire.clone();
     // release the stall shortly after the close was initiated
+    let trickle = c.salt % 3 != 0;
     let releaser = std::thread::spawn(move || {
         if stalled {
             std::thread::sleep(Duration::from_millis(3));
+            if trickle {
+                // let the backlog (and the close frame behind it) out in small partial writes
+                for k in 0..40u64 {
+                    wire2.grant(1 + ((k * 7 + 3) % 23) as usize);
+                    std::thread::sleep(Duration::from_micros(150));
+                }
+            }
             wire2.set_budget(None);
         }
     });
@@ -458,10 +499,10 @@ pub fn exec(c: &Case) -> Outcome {
         }
     }
     let has_consumer_channel = c.channels.iter().any(|(n, _)| *n > 0);
-    let special = c.stalled || matches!(c.direction, Direction::Client(FollowUp::CloseOkAndEofSameRead));
+    let special = c.stalled || matches!(c.direction, Direction::Client(FollowUp::CloseOkAndEofSameRead) | Direction::Client(FollowUp::SlowCloseOk { .. }));
     let mut o = Outcome::pass(has_consumer_channel && (raced || special));
     o.labels.push(match &c.direction {
-        Direction::Client(f) => format!("client-close/{:?}", f),
+        Direction::Client(f) => format!("client-close/{}", format!("{:?}", f).split(' ').next().unwrap_or("")),
         Direction::Server { eof_after_close_ok, .. } => format!("server-close/eof={}", eof_after_close_ok),
     });
     if raced {
@@ -474,7 +515,13 @@ pub fn exec(c: &Case) -> Outcome {
 }
 
 fn strat(_t: Tier) -> BoxedStrategy<Case> {
-    let follow = prop_oneof![Just(FollowUp::CloseOk), Just(FollowUp::CloseOkThenEof), Just(FollowUp::CloseOkAndEofSameRead), Just(FollowUp::DeliveriesThenCloseOk)];
+    let follow = prop_oneof![
+        8 => Just(FollowUp::CloseOk),
+        8 => Just(FollowUp::CloseOkThenEof),
+        8 => Just(FollowUp::CloseOkAndEofSameRead),
+        8 => Just(FollowUp::DeliveriesThenCloseOk),
+        1 => any::<u16>().prop_map(|delay_ms| FollowUp::SlowCloseOk { delay_ms }),
+    ];
     let dir = prop_oneof![
         1 => follow.prop_map(Direction::Client),
         1 => (any::<u16>(), crate::gen::short_string(), any::<bool>()).prop_map(|(code, text, eof_after_close_ok)| Direction::Server { code, text, eof_after_close_ok }),
